@@ -20,8 +20,8 @@ from . import shrink
 from .seeds import H, run_seed
 
 ROOT = Path(__file__).resolve().parent.parent
-EVIDENCE = ROOT / "evidence"
-REPLAYS = ROOT / "replays"
+EVIDENCE = Path(os.environ.get("VERIF_EVIDENCE_DIR", ROOT / "evidence"))
+REPLAYS = Path(os.environ.get("VERIF_REPLAY_DIR", ROOT / "replays"))
 
 EXIT_OK, EXIT_VIOLATION, EXIT_HARNESS = 0, 1, 2
 
